@@ -24,6 +24,7 @@ import (
 
 	jconfig "go.minekube.com/gate/pkg/edition/java/config"
 	"go.minekube.com/gate/pkg/edition/java/proto/state"
+	"go.minekube.com/gate/pkg/edition/java/proto/state/states"
 	"go.minekube.com/gate/pkg/edition/java/proxy/verifh/e2e"
 	"go.minekube.com/gate/pkg/edition/java/proxy/verifh/lib"
 	"go.minekube.com/gate/pkg/gate/proto"
@@ -40,20 +41,54 @@ func unknownIDs(dir proto.Direction, pv proto.Protocol) []int {
 	return ids
 }
 
-func genPayloads(rng *rand.Rand, ids []int, n int, thresholds []int, big int) [][]byte {
+// item is one packet of a relay stream.
+type item struct {
+	p        []byte
+	kind     string   // "unknown-id" or "known:<type>"
+	flavours []string // unusual-but-legal content classes of a known packet
+}
+
+// genStream builds one direction's stream: payloads with ids unknown to Gate (boundary-biased
+// sizes, random / highly compressible contents) interleaved with hand-built packets of the
+// known types the proxy relays as received (known_test.go). heavy > 0 adds that many
+// 48..400 KiB hardly compressible payloads (several compressing writers busy at once).
+func genStream(rng *rand.Rand, dir proto.Direction, pv proto.Protocol, ids []int, known []knownGen, knownPct int, n int, thresholds []int, big, heavy int, rejected func(kind string, err error)) []item {
 	sizes := []int{0, 1, 2, 3, 8, 126, 127, 128, 129, 254, 255, 256, 257, 16383, 16384, 32767}
 	for _, t := range thresholds {
 		if t > 1 {
 			sizes = append(sizes, t-2, t-1, t, t+1)
 		}
 	}
-	out := make([][]byte, 0, n)
+	out := make([]item, 0, n+1)
+	bundleOpen := false
+	var delim *knownGen
 	for i := 0; i < n; i++ {
+		if len(known) > 0 && rng.Intn(100) < knownPct {
+			g := known[rng.Intn(len(known))]
+			body, fl := g.build(rng, pv, i)
+			p := append(idBytes(g.id), body...)
+			if err := decodableByGate(dir, pv, p); err != nil {
+				rejected(g.name, err)
+			} else {
+				if g.name == "BundleDelimiter" {
+					bundleOpen = !bundleOpen
+					gg := g
+					delim = &gg
+				}
+				out = append(out, item{p: p, kind: "known:" + g.name, flavours: fl})
+				continue
+			}
+		}
 		var k int
+		random := rng.Intn(2) == 0
 		switch {
 		case big > 0 && i == n/2:
 			k = []int{1 << 20, 1<<21 - 2, 1<<21 - 20}[rng.Intn(3)]
 			big--
+			random = false
+		case heavy > 0 && i%(n/heavy+1) == 1:
+			k = 48<<10 + rng.Intn(352<<10)
+			random = true
 		case rng.Intn(4) == 0:
 			k = rng.Intn(700)
 		default:
@@ -62,7 +97,7 @@ func genPayloads(rng *rand.Rand, ids []int, n int, thresholds []int, big int) []
 		p := make([]byte, 1+k)
 		p[0] = byte(ids[rng.Intn(len(ids))])
 		body := p[1:]
-		if k >= 1<<16 || rng.Intn(2) == 0 {
+		if !random {
 			// highly compressible
 			for j := range body {
 				body[j] = byte(i)
@@ -74,7 +109,19 @@ func genPayloads(rng *rand.Rand, ids []int, n int, thresholds []int, big int) []
 			binary.BigEndian.PutUint32(body[0:], 0xC15C15C1)
 			binary.BigEndian.PutUint32(body[4:], uint32(i))
 		}
-		out = append(out, p)
+		out = append(out, item{p: p, kind: "unknown-id"})
+	}
+	if bundleOpen {
+		// leave the player outside a bundle: delimiters come in pairs
+		out = append(out, item{p: idBytes(delim.id), kind: "known:BundleDelimiter"})
+	}
+	return out
+}
+
+func payloads(items []item) [][]byte {
+	out := make([][]byte, len(items))
+	for i := range items {
+		out[i] = items[i].p
 	}
 	return out
 }
@@ -88,175 +135,293 @@ func digest(ps [][]byte) []string {
 	return out
 }
 
+// sessionCase is one PRNG-determined session.
+type sessionCase struct {
+	s          int
+	pv         proto.Protocol
+	ct, bt     int
+	big, heavy int
+	trickle    int // > 0: both fake peers read from their sockets in chunks of 1..trickle bytes
+}
+
+func (c sessionCase) desc() map[string]any {
+	return map[string]any{"session": c.s, "protocol": int(c.pv), "client_threshold": c.ct, "backend_threshold": c.bt, "big": c.big, "heavy": c.heavy, "peer_read_chunk": c.trickle}
+}
+
+// classify names the kind of difference between what was sent and what arrived (any
+// difference is a violation; this only chooses the signature): the index into sent of the
+// first packet affected, and one of missing / duplicated-or-invented / reordered / changed.
+func classify(sent, got [][]byte) (kind string, at int, detail string) {
+	first := -1
+	for i := 0; i < len(got) && i < len(sent); i++ {
+		if !bytes.Equal(got[i], sent[i]) {
+			first = i
+			break
+		}
+	}
+	if first < 0 {
+		switch {
+		case len(got) < len(sent):
+			return "payloads-missing", len(got), fmt.Sprintf("%d of %d payloads arrived (a prefix)", len(got), len(sent))
+		case len(got) > len(sent):
+			return "payloads-duplicated-or-invented", len(sent) - 1, fmt.Sprintf("%d payloads arrived, %d sent", len(got), len(sent))
+		}
+		return "", 0, ""
+	}
+	detail = fmt.Sprintf("position %d: sent %s, received %s (%d sent, %d received)", first, digest(sent[first : first+1])[0], digest(got[first : first+1])[0], len(sent), len(got))
+	// is what arrived a subsequence of what was sent (only holes)?
+	j := 0
+	for _, g := range got {
+		for j < len(sent) && !bytes.Equal(sent[j], g) {
+			j++
+		}
+		if j == len(sent) {
+			j = -1
+			break
+		}
+		j++
+	}
+	if j >= 0 {
+		return "payloads-missing", first, detail
+	}
+	key := func(b []byte) string { h := sha1.Sum(b); return string(h[:]) }
+	cnt := map[string]int{}
+	for _, p := range sent {
+		cnt[key(p)]++
+	}
+	unknown, dup := false, false
+	for _, g := range got {
+		k := key(g)
+		if _, ok := cnt[k]; !ok {
+			unknown = true
+			continue
+		}
+		cnt[k]--
+		if cnt[k] < 0 {
+			dup = true
+		}
+	}
+	switch {
+	case unknown:
+		return "payload-changed", first, detail
+	case dup:
+		return "payloads-duplicated-or-invented", first, detail
+	}
+	return "payloads-reordered", first, detail
+}
+
 func TestC15(t *testing.T) {
 	r := lib.Start(t, "C15")
 	defer r.Finish()
-	r.Rule("one case = one live session (protocol from {47,340,758,763,764,767,775}, client threshold and backend threshold drawn independently from {-1,0,64,256}) relaying 2 concurrent streams of pass-through payloads (ids unknown to Gate in play) with boundary-biased sizes; evaluations = payloads relayed; distinct = distinct (direction, protocol, thresholds, payload size class)")
-	r.Assume("fake peers frame/deframe with the harness's own codec; ids are chosen as unknown through Gate's registry (workload only)")
+	r.Rule("one case = one live session (protocol from {47,340,758,760,761,763,764,767,775}, client threshold and backend threshold drawn independently from {-1,0,64,256}; every 6th session 'heavy': both sides compressing, 48-400 KiB hardly compressible payloads, peers reading their sockets in small chunks) relaying 2 concurrent streams of pass-through packets: ids unknown to Gate in play (boundary-biased sizes) interleaved with hand-built packets of the KNOWN types the play handlers only observe or ignore and relay as received (backend->client: KeepAlive, legacy PlayerListItem, PlayerInfo Upsert/Remove, BossBar, BundleDelimiter, unregistered-channel and register plugin messages, HeaderAndFooter, PlayerChatCompletion, CustomReportDetails, title Times, SystemChat, LegacyChat; client->backend: ClientSettings) with ordinary and unusual-but-legal contents (zero UUIDs, empty names, 0 / many entries, unknown enum values, no actions); 4 sessions run at a time; evaluations = packets relayed and compared; distinct = distinct (direction, protocol, thresholds, packet kind, size class)")
+	r.Assume("fake peers frame/deframe with the harness's own codec; known packets are built byte by byte by the harness's own writer; ids are looked up (unknown ids: chosen as unknown) through Gate's registry and hand-built known packets are pre-checked against Gate's decoder (workload selection only, rejected ones are counted)")
 	rng := r.Rng("cases")
-	sessions := r.N(60, 3000)
+	sessions := r.N(72, 3000)
 	perDir := r.N(200, 300)
-	protos := []proto.Protocol{47, 340, 758, 763, 764, 767, 775}
+	protos := []proto.Protocol{47, 340, 758, 760, 761, 763, 764, 767, 775}
 	ths := []int{-1, 0, 64, 256}
-	var relayed, bigRelayed int64
 
-	for s := 0; s < sessions; s++ {
-		pv := protos[rng.Intn(len(protos))]
-		ct, bt := ths[rng.Intn(4)], ths[rng.Intn(4)]
-		if pv < 47 {
-			ct = -1
-		}
-		big := 0
+	cases := make([]sessionCase, sessions)
+	for s := range cases {
+		c := sessionCase{s: s, pv: protos[rng.Intn(len(protos))], ct: ths[rng.Intn(4)], bt: ths[rng.Intn(4)]}
 		if s%10 == 0 {
-			big = 1
+			c.big = 1
 		}
-		desc := map[string]any{"session": s, "protocol": int(pv), "client_threshold": ct, "backend_threshold": bt, "big": big}
-		r.LogCase(desc)
-		h, err := e2e.New(e2e.Options{Mutate: func(c *jconfig.Config) { c.Compression.Threshold = ct }})
-		if err != nil {
-			t.Fatal(err)
+		if s%6 == 3 {
+			// heavy: compression on both legs so that every relayed large payload is deflated
+			// twice by the proxy, concurrently in both directions and in up to 4 sessions
+			c.ct, c.bt = ths[1+rng.Intn(3)], ths[1+rng.Intn(3)]
+			c.heavy = 24
+			c.trickle = []int{64, 512, 4096}[rng.Intn(3)]
 		}
-		b, _ := h.AddBackend("lobby", e2e.Always(e2e.Behavior{Mode: e2e.Accept, Threshold: bt}))
-		h.Cfg.Try = []string{"lobby"}
-		c := h.NewClient(e2e.ClientOpts{Protocol: pv})
-		if res := c.Login("Relay", "example.com"); !res.Joined {
-			r.Inconclusive(fmt.Sprintf("session %d: login did not complete: %+v", s, res))
-			c.Close()
-			continue
-		}
-		if !h.AwaitCurrentServer("Relay", "lobby", e2e.Watchdog) {
-			r.Inconclusive(fmt.Sprintf("session %d: proxy never reported the player on its server", s))
-			c.Close()
-			continue
-		}
-		bc := b.Conns()[0]
-		sIDs, cIDs := unknownIDs(proto.ServerBound, pv), unknownIDs(proto.ClientBound, pv)
-		if len(sIDs) == 0 || len(cIDs) == 0 {
-			r.Inconclusive("no unknown ids")
-			continue
-		}
-		up := genPayloads(r.Rng(fmt.Sprintf("up%d", s)), sIDs, perDir, []int{ct, bt}, big)
-		down := genPayloads(r.Rng(fmt.Sprintf("down%d", s)), cIDs, perDir, []int{ct, bt}, big)
-		// end markers
-		endUp := append([]byte{byte(sIDs[0])}, []byte("END-OF-UP-STREAM")...)
-		endDown := append([]byte{byte(cIDs[0])}, []byte("END-OF-DOWN-STREAM")...)
-		var wg sync.WaitGroup
-		wg.Add(2)
+		cases[s] = c
+	}
+	var wg sync.WaitGroup
+	work := make(chan sessionCase)
+	for w := 0; w < 4; w++ {
+		wg.Add(1)
 		go func() {
 			defer wg.Done()
-			for _, p := range up {
-				_ = c.SendRaw(p)
+			for c := range work {
+				runSession(t, r, c, perDir)
 			}
-			_ = c.SendRaw(endUp)
 		}()
-		go func() {
-			defer wg.Done()
-			for _, p := range down {
-				_ = bc.SendRaw(p)
-			}
-			_ = bc.SendRaw(endDown)
-		}()
-		wg.Wait()
-		_, errU := bc.WaitFor(func(rc *e2e.Rec) bool { return bytes.Equal(rc.Payload, endUp) }, e2e.Watchdog)
-		_, errD := c.WaitFor(func(rc *e2e.Rec) bool { return bytes.Equal(rc.Payload, endDown) }, e2e.Watchdog)
-		// a marker that did not arrive within the watchdog is re-sent once and awaited with a
-		// doubled watchdog: if the second one arrives the first was lost (a relay fault); if it
-		// does not either, the relay is stalled in an otherwise idle in-memory system
-		stalledUp, stalledDown := false, false
-		if errU == e2e.ErrTimeout {
-			_ = c.SendRaw(endUp)
-			_, e2 := bc.WaitFor(func(rc *e2e.Rec) bool { return bytes.Equal(rc.Payload, endUp) }, 2*e2e.Watchdog)
-			stalledUp = e2 == e2e.ErrTimeout
-			errU = nil
+	}
+	for _, c := range cases {
+		r.LogCase(c.desc())
+		work <- c
+	}
+	close(work)
+	wg.Wait()
+	r.Set("payloads_relayed_and_compared", r.Counter("relayed"))
+	r.Set("payloads_over_512KiB", r.Counter("relayed_over_512KiB"))
+	r.Set("known_type_packets_relayed_and_compared", r.Counter("relayed_known_types"))
+	r.Set("sessions", sessions)
+}
+
+func runSession(t *testing.T, r *lib.Run, sc sessionCase, perDir int) {
+	s, pv, ct, bt := sc.s, sc.pv, sc.ct, sc.bt
+	desc := sc.desc()
+	h, err := e2e.New(e2e.Options{Mutate: func(c *jconfig.Config) { c.Compression.Threshold = ct }})
+	if err != nil {
+		r.Inconclusive(fmt.Sprintf("session %d: proxy not built: %v", s, err))
+		return
+	}
+	b, _ := h.AddBackend("lobby", e2e.Always(e2e.Behavior{Mode: e2e.Accept, Threshold: bt}))
+	h.Cfg.Try = []string{"lobby"}
+	c := h.NewClient(e2e.ClientOpts{Protocol: pv})
+	defer c.Close()
+	if res := c.Login("Relay", "example.com"); !res.Joined {
+		r.Inconclusive(fmt.Sprintf("session %d: login did not complete: %+v", s, res))
+		return
+	}
+	if !h.AwaitCurrentServer("Relay", "lobby", e2e.Watchdog) {
+		r.Inconclusive(fmt.Sprintf("session %d: proxy never reported the player on its server", s))
+		return
+	}
+	bc := b.Conns()[0]
+	if sc.trickle > 0 {
+		// stimulus: peers that drain their sockets in small reads (a slow consumer)
+		c.Conn.SetChunking(r.Rng(fmt.Sprintf("chunkc%d", s)), sc.trickle)
+		bc.Conn.SetChunking(r.Rng(fmt.Sprintf("chunkb%d", s)), sc.trickle)
+	}
+	sIDs, cIDs := unknownIDs(proto.ServerBound, pv), unknownIDs(proto.ClientBound, pv)
+	if len(sIDs) == 0 || len(cIDs) == 0 {
+		r.Inconclusive("no unknown ids")
+		return
+	}
+	rejected := func(kind string, err error) {
+		r.Count("workload_known_packet_rejected_by_gate_decoder:"+kind, 1)
+		t.Logf("session %d: hand-built %s not decodable by Gate (protocol %d), not sent: %v", s, kind, pv, err)
+	}
+	upKnown, downKnown := knownRelayed(proto.ServerBound, pv), knownRelayed(proto.ClientBound, pv)
+	up := genStream(r.Rng(fmt.Sprintf("up%d", s)), proto.ServerBound, pv, sIDs, upKnown, 15, perDir, []int{ct, bt}, sc.big, sc.heavy, rejected)
+	down := genStream(r.Rng(fmt.Sprintf("down%d", s)), proto.ClientBound, pv, cIDs, downKnown, 40, perDir, []int{ct, bt}, sc.big, sc.heavy, rejected)
+	// end markers
+	endUp := append([]byte{byte(sIDs[0])}, []byte("END-OF-UP-STREAM")...)
+	endDown := append([]byte{byte(cIDs[0])}, []byte("END-OF-DOWN-STREAM")...)
+	var wg sync.WaitGroup
+	wg.Add(2)
+	go func() {
+		defer wg.Done()
+		for _, it := range up {
+			_ = c.SendRaw(it.p)
 		}
-		if errD == e2e.ErrTimeout {
-			_ = bc.SendRaw(endDown)
-			_, e2 := c.WaitFor(func(rc *e2e.Rec) bool { return bytes.Equal(rc.Payload, endDown) }, 2*e2e.Watchdog)
-			stalledDown = e2 == e2e.ErrTimeout
-			errD = nil
+		_ = c.SendRaw(endUp)
+	}()
+	go func() {
+		defer wg.Done()
+		for _, it := range down {
+			_ = bc.SendRaw(it.p)
 		}
-		if stalledUp {
-			r.Violation("relay-client-to-backend:stalled", "nothing was relayed although two end markers were sent 20 s apart and the connection is open", desc)
+		_ = bc.SendRaw(endDown)
+	}()
+	wg.Wait()
+	_, errU := bc.WaitFor(func(rc *e2e.Rec) bool { return bytes.Equal(rc.Payload, endUp) }, e2e.Watchdog)
+	_, errD := c.WaitFor(func(rc *e2e.Rec) bool { return bytes.Equal(rc.Payload, endDown) }, e2e.Watchdog)
+	// a marker that did not arrive within the watchdog is re-sent once and awaited with a
+	// doubled watchdog: if the second one arrives the first was lost (a relay fault); if it
+	// does not either, the relay is stalled in an otherwise idle in-memory system
+	stalledUp, stalledDown := false, false
+	if errU == e2e.ErrTimeout {
+		_ = c.SendRaw(endUp)
+		_, e2 := bc.WaitFor(func(rc *e2e.Rec) bool { return bytes.Equal(rc.Payload, endUp) }, 2*e2e.Watchdog)
+		stalledUp = e2 == e2e.ErrTimeout
+		errU = nil
+	}
+	if errD == e2e.ErrTimeout {
+		_ = bc.SendRaw(endDown)
+		_, e2 := c.WaitFor(func(rc *e2e.Rec) bool { return bytes.Equal(rc.Payload, endDown) }, 2*e2e.Watchdog)
+		stalledDown = e2 == e2e.ErrTimeout
+		errD = nil
+	}
+	if stalledUp {
+		r.Violation("relay-client-to-backend:stalled", "nothing was relayed although two end markers were sent 20 s apart and the connection is open", desc)
+	}
+	if stalledDown {
+		r.Violation("relay-backend-to-client:stalled", "nothing was relayed although two end markers were sent 20 s apart and the connection is open", desc)
+	}
+	check := func(dir string, items []item, log []*e2e.Rec, ids []int, known []knownGen, end []byte, werr error) {
+		// what is compared: every packet received in the play state whose id is one of the ids
+		// the stream uses (unknown ids and the ids of the relayed known types) - in play with no
+		// switch going on the proxy has no packet of its own to send with these ids
+		idset := map[int]bool{}
+		for _, id := range ids {
+			idset[id] = true
 		}
-		if stalledDown {
-			r.Violation("relay-backend-to-client:stalled", "nothing was relayed although two end markers were sent 20 s apart and the connection is open", desc)
+		for _, g := range known {
+			idset[g.id] = true
 		}
-		check := func(dir string, sent [][]byte, log []*e2e.Rec, ids []int, end []byte, werr error) {
-			idset := map[int]bool{}
-			for _, id := range ids {
-				idset[id] = true
+		sent := payloads(items)
+		var got [][]byte
+		for _, rc := range log {
+			if rc.State == states.PlayState && idset[rc.ID] && !bytes.Equal(rc.Payload, end) {
+				got = append(got, rc.Payload)
 			}
-			var got [][]byte
-			for _, rc := range log {
-				if rc.State.String() == "Play" || true {
-					if idset[rc.ID] && !bytes.Equal(rc.Payload, end) && rc.Packet == nil {
-						got = append(got, rc.Payload)
-					}
-				}
-			}
-			sig := ""
-			detail := ""
-			switch {
-			case len(got) < len(sent):
-				sig = "relay-" + dir + ":payloads-missing"
-				detail = fmt.Sprintf("%d of %d payloads arrived", len(got), len(sent))
-			case len(got) > len(sent):
-				sig = "relay-" + dir + ":payloads-duplicated-or-invented"
-				detail = fmt.Sprintf("%d payloads arrived, %d sent", len(got), len(sent))
-			}
-			for i := 0; i < len(got) && i < len(sent); i++ {
-				if !bytes.Equal(got[i], sent[i]) {
-					// changed or reordered?
-					found := false
-					for j := range sent {
-						if bytes.Equal(got[i], sent[j]) {
-							found = true
-						}
-					}
-					if found {
-						sig = "relay-" + dir + ":payloads-reordered"
-					} else {
-						sig = "relay-" + dir + ":payload-changed"
-					}
-					detail = fmt.Sprintf("position %d: sent %s, received %s", i, digest(sent[i : i+1])[0], digest(got[i : i+1])[0])
-					break
-				}
-			}
-			if sig != "" {
-				if werr == e2e.ErrTimeout && len(got) < len(sent) {
-					// nothing wrong observed except that the stream did not complete in time
-					r.Inconclusive(fmt.Sprintf("session %d %s: end marker not seen within the watchdog (%s)", s, dir, detail))
-					return
-				}
-				r.Violation(sig, detail, map[string]any{"case": desc, "direction": dir, "sent_head": digest(sent[:min(12, len(sent))]), "received_head": digest(got[:min(12, len(got))])})
+		}
+		what, at, detail := classify(sent, got)
+		if what != "" {
+			if werr == e2e.ErrTimeout && what == "payloads-missing" && at == len(got) {
+				// nothing wrong observed except that the stream did not complete in time
+				r.Inconclusive(fmt.Sprintf("session %d %s: end marker not seen within the watchdog (%s)", s, dir, detail))
 				return
 			}
-			for _, p := range sent {
-				relayed++
-				if len(p) > 1<<19 {
-					bigRelayed++
-				}
-				cls := "tiny"
-				switch {
-				case len(p) > 1<<19:
-					cls = "huge"
-				case len(p) > 300:
-					cls = "large"
-				case len(p) > 64:
-					cls = "mid"
-				}
-				r.Distinct(fmt.Sprintf("%s|%d|%d|%d|%s", dir, pv, ct, bt, cls))
+			sig := "relay-" + dir + ":" + what
+			affected := "unknown-id"
+			if at >= 0 && at < len(items) {
+				affected = items[at].kind
 			}
-			r.Eval(len(sent))
+			if affected != "unknown-id" {
+				sig += ":" + affected // e.g. ...:payloads-missing:known:PlayerListItem
+			}
+			w := map[string]any{"case": desc, "direction": dir, "first_affected_packet": affected, "sent_head": digest(sent[:min(12, len(sent))]), "received_head": digest(got[:min(12, len(got))])}
+			if at >= 0 && at < len(items) {
+				w["first_affected_flavours"] = items[at].flavours
+				lo, hi := max(0, at-2), min(len(sent), at+3)
+				w["sent_around"] = digest(sent[lo:hi])
+				if lo < len(got) {
+					w["received_around"] = digest(got[lo:min(len(got), hi)])
+				}
+				if len(items[at].p) <= 256 {
+					w["first_affected_payload_hex"] = hex.EncodeToString(items[at].p)
+				}
+			}
+			r.Violation(sig, detail, w)
+			return
 		}
-		check("client-to-backend", up, bc.Log(), sIDs, endUp, errU)
-		check("backend-to-client", down, c.Log(), cIDs, endDown, errD)
-		if r.WantSample() {
-			r.Sample(map[string]any{"case": desc, "up_head": digest(up[:4]), "down_head": digest(down[:4])})
+		for _, it := range items {
+			p := it.p
+			r.Count("relayed", 1)
+			if len(p) > 1<<19 {
+				r.Count("relayed_over_512KiB", 1)
+			}
+			cls := "tiny"
+			switch {
+			case len(p) > 1<<19:
+				cls = "huge"
+			case len(p) > 32<<10:
+				cls = "heavy"
+			case len(p) > 300:
+				cls = "large"
+			case len(p) > 64:
+				cls = "mid"
+			}
+			if it.kind != "unknown-id" {
+				r.Count("relayed_known_types", 1)
+				r.Count("relayed:"+dir+":"+it.kind, 1)
+				for _, f := range it.flavours {
+					r.Count("relayed_unusual:"+it.kind+":"+f, 1)
+				}
+			} else {
+				r.Count("relayed:"+dir+":unknown-id", 1)
+			}
+			r.Distinct(fmt.Sprintf("%s|%d|%d|%d|%s|%s", dir, pv, ct, bt, it.kind, cls))
 		}
-		c.Close()
+		r.Eval(len(items))
 	}
-	r.Set("payloads_relayed_and_compared", relayed)
-	r.Set("payloads_over_512KiB", bigRelayed)
-	r.Set("sessions", sessions)
+	check("client-to-backend", up, bc.Log(), sIDs, upKnown, endUp, errU)
+	check("backend-to-client", down, c.Log(), cIDs, downKnown, endDown, errD)
+	if r.WantSample() {
+		r.Sample(map[string]any{"case": desc, "up_head": digest(payloads(up[:4])), "down_head": digest(payloads(down[:4]))})
+	}
 }
